@@ -557,6 +557,12 @@ Theorem c02_read_steps_regenerated :
 Proof. exact read_steps_regenerated. Qed.
 Print Assumptions c02_read_steps_regenerated.
 
+(* the STREAM_TYPE constant of every `impl MinidumpStream` in minidump.rs is the stream type under which the model's
+   decode_dump / get_stream looks that stream up (ST_* from format.rs) *)
+Theorem c02_reader_stream_types : RD_IMPLEMENTED = DOC_READERS.
+Proof. exact reader_stream_types. Qed.
+Print Assumptions c02_reader_stream_types.
+
 Example c02_nonvacuous_stream_types :
   let d := [(10, (1, 50)); (1197932550, (2, 60)); (4, (3, 70)); (10, (4, 80)); (1299843851, (5, 90)); (32773, (0, 0))] in
   unimplemented_streams d = [(10, (3, (4, 80))); (32773, (5, (0, 0))); (1197932550, (1, (2, 60)))] /\
